@@ -86,6 +86,10 @@ def targeted_discs(rng):
     # extreme tuning: lowest root note tuned all the way down, highest tuned all the way up (unity note outside 0..127), then an ordinary file
     out.append(("tuning", G.Disc([G.Partition([G.Volume("V", [G.SampleFile("LOW", W(rng, 30), note=21, semi=-50, cents=-128), G.SampleFile("HIGH", W(rng, 30), note=127, semi=50, cents=127),
                                                                G.SampleFile("AFTER", W(rng, 30))])], sectors=12)])))
+    # holes in the volume table (a deleted volume; a first volume that is not in slot 0)
+    out.append(("table-holes", G.Disc([G.Partition([G.Volume("V0", [G.SampleFile("A0", W(rng, 20))]), G.Volume("V1", [G.SampleFile("A1", W(rng, 20))]),
+                                                     G.Volume("V3", [G.SampleFile("A3", W(rng, 20))]), G.Volume("V9", [G.SampleFile("A9", W(rng, 20))])], sectors=16, slots=[0, 1, 3, 9]),
+                                        G.Partition([G.Volume("W4", [G.SampleFile("B4", W(rng, 20))])], sectors=10, slots=[4])])))
     # a pair, both orders, equal lengths that fill a sector
     out.append(("pair", G.Disc([G.Partition([G.Volume("ST", [G.SampleFile("PAD -R", W(rng, 4026)), G.SampleFile("PAD -L", W(rng, 4026)), G.SampleFile("PADX", W(rng, 7))])], sectors=16)])))
     return out
